@@ -50,7 +50,7 @@ def _callable(x):
 
 
 def cases(tier, seed):
-  nseq = 6 if tier == 'quick' else 60
+  nseq = 6 if tier == 'quick' else 600
   return [{'est': name, 'seed': seed, 'nseq': nseq} for name in E.ALL]
 
 
